@@ -425,24 +425,52 @@ theorem addZeroRow_value {p r : List Val} {s s' : St} (hp : AllLc p)
   exact ⟨this.1, by simpa using this.2.1, this.2.2⟩
 
 theorem addRows_value {a b r : List Val} {s s' : St} (ha : NumRow a) (hb : AllLc b)
-    (h : addRows a b s = .ok (r, s')) : AllLc r ∧ ivals r = addI (ivals a) (ivals b) ∧ Ext s s' :=
-  zipWithM'_vals (A := fun v => v.isNum = true) (B := fun v => ∃ y, v = Val.lc y)
-    (C := fun v => ∃ y, v = Val.lc y) (g := fun x y => x + y)
-    (fun _ _ _ _ _ ht hu hh => by
-      obtain ⟨y, rfl⟩ := hu
-      have hst := addV_num_lc_st ht hh
-      obtain ⟨z, rfl, hz⟩ := addV_num_lc ht hh
-      exact ⟨⟨z, rfl⟩, hz, hst ▸ Ext.refl _⟩) a b ha hb h
+    (h : addRows a b s = .ok (r, s')) : AllLc r ∧ ivals r = addI (ivals a) (ivals b) ∧ Ext s s' := by
+  unfold addRows at h
+  split at h
+  · exact zipWithM'_vals (A := fun v => v.isNum = true) (B := fun v => ∃ y, v = Val.lc y)
+      (C := fun v => ∃ y, v = Val.lc y) (g := fun x y => x + y)
+      (fun _ _ _ _ _ ht hu hh => by
+        obtain ⟨y, rfl⟩ := hu
+        have hst := addV_num_lc_st ht hh
+        obtain ⟨z, rfl, hz⟩ := addV_num_lc ht hh
+        exact ⟨⟨z, rfl⟩, hz, hst ▸ Ext.refl _⟩) a b ha hb h
+  · exact (raise_ok.mp h).elim
 
 theorem subRows_value {a b r : List Val} {s s' : St} (ha : NumRow a) (hb : NumRow b)
     (h : subRows a b s = .ok (r, s')) :
-    NumRow r ∧ ivals r = List.zipWith (· - ·) (ivals a) (ivals b) ∧ Ext s s' :=
-  zipWithM'_vals (A := fun v => v.isNum = true) (B := fun v => v.isNum = true)
-    (C := fun v => v.isNum = true) (g := fun x y => x - y)
-    (fun _ _ _ _ _ ht hu hh => by
-      have hst := subV_num_st ht hu hh
-      obtain ⟨h1, h2⟩ := subV_num ht hu hh
-      exact ⟨h1, h2, hst ▸ Ext.refl _⟩) a b ha hb h
+    NumRow r ∧ ivals r = List.zipWith (· - ·) (ivals a) (ivals b) ∧ Ext s s' := by
+  unfold subRows at h
+  split at h
+  · exact zipWithM'_vals (A := fun v => v.isNum = true) (B := fun v => v.isNum = true)
+      (C := fun v => v.isNum = true) (g := fun x y => x - y)
+      (fun _ _ _ _ _ ht hu hh => by
+        have hst := subV_num_st ht hu hh
+        obtain ⟨h1, h2⟩ := subV_num ht hu hh
+        exact ⟨h1, h2, hst ▸ Ext.refl _⟩) a b ha hb h
+  · exact (raise_ok.mp h).elim
+
+/-- operands of different lengths are refused, never zipped to the shorter one (`Array.__add__`, `Array.__sub__`) -/
+theorem addRows_mismatch {a b : List Val} {s : St} (h : a.length ≠ b.length) : addRows a b s = .error .value := by
+  unfold addRows
+  rw [if_neg h]
+  rfl
+
+theorem subRows_mismatch {a b : List Val} {s : St} (h : a.length ≠ b.length) : subRows a b s = .error .value := by
+  unfold subRows
+  rw [if_neg h]
+  rfl
+
+/-- a completed `a + b` / `a - b` had operands of the same length -/
+theorem addRows_ok_length {a b r : List Val} {s s' : St} (h : addRows a b s = .ok (r, s')) : a.length = b.length := by
+  by_contra hne
+  rw [addRows_mismatch hne] at h
+  cases h
+
+theorem subRows_ok_length {a b r : List Val} {s s' : St} (h : subRows a b s = .ok (r, s')) : a.length = b.length := by
+  by_contra hne
+  rw [subRows_mismatch hne] at h
+  cases h
 
 /-- `if_then_else(c, t, f)` on rows: element-wise `f + c·(t − f)` -/
 theorem iteRow_value {c : LinComb} {t f r : List Val} {s s' : St} (ht : NumRow t) (hf : NumRow f)
